@@ -3514,6 +3514,17 @@ impl KotoVm {
         // Render the value as a string, applying the precision option if specified
         let precision = format_options.and_then(|options| options.precision);
         let representation = format_options.and_then(|options| options.representation);
+        if let (Some(precision), true) = (precision, value_is_number)
+            && precision as usize >= u16::MAX as usize
+        {
+            // Larger values make the standard library's number formatting panic
+            // (the exponential representations need one digit more than the precision).
+            return runtime_error!(
+                "the precision of {precision} is too large for a number, the maximum is {}",
+                u16::MAX - 1
+            );
+        }
+
         let rendered = match value {
             KValue::Number(n) => match (precision, representation) {
                 // The debug and exponential representations are supported for all numbers,
